@@ -139,6 +139,14 @@ CHECKS = {
               "(digests recomputed with hashlib) and real results are cross-checked pairwise; chunk-independent hashing is probed."),
         technique="TLA+ hash-tree specification checked by TLC over all pairs + enumerated trees materialised on disk and compared",
         design="4/C19"),
+    "C15": dict(
+        text=("ContainerAcl.tla is a finite state machine over wrapper states (node, flags, local root, object handed out by parent); "
+              "TLC generates every navigation chain (lookups, listings, visits, query results, parent, restrict) up to the bound from "
+              "every start node and flag combination of a fixture container, checks that flags only grow and local-only wrappers stay "
+              "below their local root, and exports the expected node/flags per step and the expected outcome of every mutating, reading "
+              "and upward attempt; every chain is executed on real wrappers on both drivers, refusals must leave the raw container unchanged."),
+        technique="TLA+ navigation state machine enumerated by TLC + replay of every chain and attempt on the real wrappers (both drivers)",
+        design="4/C15"),
 }
 
 NOT_YET = "check not built yet (work in progress)"
